@@ -57,8 +57,9 @@ def _is_getter(name):
     return False
 
 
-def _pure(e, stored_names, stored_chains, params):
-    """side-effect free and reading nothing this function assigns."""
+def _pure(e, stored_names, stored_chains, params, after=0, own=None):
+    """side-effect free and reading nothing this function assigns at or after line `after`
+    (`own`: the name being defined - its own single store does not count)."""
     for n in ast.walk(e):
         if isinstance(n, (ast.Yield, ast.YieldFrom, ast.Await, ast.Lambda, ast.NamedExpr, ast.Starred,
                           ast.ListComp, ast.SetComp, ast.DictComp, ast.GeneratorExp, ast.Dict, ast.JoinedStr)):
@@ -71,14 +72,14 @@ def _pure(e, stored_names, stored_chains, params):
             if isinstance(n.func, ast.Attribute) and not n.args and _is_getter(n.func.attr):
                 continue
             return False
-        if isinstance(n, ast.Name) and isinstance(n.ctx, ast.Load):
-            if stored_names.get(n.id, 0) > (0 if n.id in params else 1):
+        if isinstance(n, ast.Name) and isinstance(n.ctx, ast.Load) and n.id != own:
+            if any(ln >= after for ln in stored_names.get(n.id, ())):
                 return False
         if isinstance(n, ast.Attribute):
             c = _chain(n)
             if c is not None:
-                for sc in stored_chains:
-                    if c == sc or c.startswith(sc + ".") or sc.startswith(c + "."):
+                for sc, lns in stored_chains.items():
+                    if (c == sc or c.startswith(sc + ".") or sc.startswith(c + ".")) and any(ln >= after for ln in lns):
                         return False
     return True
 
@@ -112,27 +113,24 @@ def expand_locals(fn, keep=()):
         params.add(fn.args.vararg.arg)
     if fn.args.kwarg:
         params.add(fn.args.kwarg.arg)
-    stored_names, stored_chains = {}, set()
+    stored_names, stored_chains = {}, {}
     for n in _own_walk(fn):
+        ln = getattr(n, "lineno", 0)
         if isinstance(n, ast.Name) and isinstance(n.ctx, (ast.Store, ast.Del)):
-            stored_names[n.id] = stored_names.get(n.id, 0) + 1
+            stored_names.setdefault(n.id, []).append(ln)
         elif isinstance(n, ast.Attribute) and isinstance(n.ctx, (ast.Store, ast.Del)):
             c = _chain(n)
             if c:
-                stored_chains.add(c)
+                stored_chains.setdefault(c, []).append(ln)
         elif isinstance(n, ast.Subscript) and isinstance(n.ctx, (ast.Store, ast.Del)):
             c = _chain(n.value)
             if c:
-                stored_chains.add(c)
+                stored_chains.setdefault(c, []).append(ln)
         elif isinstance(n, (ast.Global, ast.Nonlocal)):
             for nm in n.names:
-                stored_names[nm] = stored_names.get(nm, 0) + 2
+                stored_names.setdefault(nm, []).extend([0, 10 ** 9])
         elif isinstance(n, ast.ExceptHandler) and n.name:
-            stored_names[n.name] = stored_names.get(n.name, 0) + 2
-    for p in params:
-        if stored_names.get(p, 0):
-            stored_names[p] += 1      # a re-assigned parameter is not stable
-
+            stored_names.setdefault(n.name, []).extend([ln, 10 ** 9])
     def blocks(node):
         for field in ("body", "orelse", "finalbody"):
             b = getattr(node, field, None)
@@ -149,10 +147,12 @@ def expand_locals(fn, keep=()):
         while i < len(block):
             st = block[i]
             if isinstance(st, ast.Assign) and len(st.targets) == 1 and isinstance(st.targets[0], ast.Name) \
-                    and stored_names.get(st.targets[0].id, 0) == 1 and st.targets[0].id not in params \
+                    and len(stored_names.get(st.targets[0].id, ())) == 1 \
+                    and st.targets[0].id not in params \
                     and st.targets[0].id not in keep \
                     and not isinstance(st.value, ast.Constant) \
-                    and _pure(st.value, stored_names, stored_chains, params):
+                    and _pure(st.value, stored_names, stored_chains, params, after=st.lineno + 1,
+                              own=st.targets[0].id):
                 name = st.targets[0].id
                 sub = _Subst({name: st.value})
                 for later in block[i + 1:]:
@@ -179,30 +179,85 @@ def _baseline():
         return json.load(f)
 
 
+def _is_gen(fdef):
+    return any(isinstance(n, (ast.Yield, ast.YieldFrom)) for n in _own_walk(fdef))
+
+
 def _inlinable(fdef):
-    """straight-line / if / raise body with at most one trailing `return expr`; no yield, loops, try."""
+    """loop-free body (statements, if, try, raise, return, and - for generators - the package's own
+    forwarding loops); returns may sit anywhere (the rest of the body is duplicated behind the
+    branches that do not return)."""
     if fdef.args.vararg or fdef.args.kwarg or fdef.args.kwonlyargs or fdef.args.defaults:
         return False
     body = [s for s in fdef.body if not (isinstance(s, ast.Expr) and isinstance(s.value, ast.Constant))]
-    if not body or len(body) > 12:
+    if not body or len(body) > 25:
         return False
+    gen = _is_gen(fdef)
     for n in ast.walk(fdef):
-        if isinstance(n, (ast.Yield, ast.YieldFrom, ast.While, ast.For, ast.With, ast.Lambda, ast.Global,
-                          ast.Nonlocal)) or (isinstance(n, (ast.FunctionDef, ast.ClassDef)) and n is not fdef):
+        if isinstance(n, (ast.While, ast.With, ast.Lambda, ast.Global, ast.Nonlocal, ast.YieldFrom)) \
+                or (isinstance(n, (ast.FunctionDef, ast.ClassDef)) and n is not fdef):
+            return False
+        if isinstance(n, ast.For) and not gen:
+            return False
+        if isinstance(n, ast.Return) and gen and n.value is not None:
             return False
     rets = [n for n in ast.walk(fdef) if isinstance(n, ast.Return)]
-    if len(rets) > 1 or (rets and rets[0] is not body[-1]):
+    if len(rets) > 4:
         return False
+    # returns inside try blocks or loops cannot be re-threaded
+    for n in ast.walk(fdef):
+        if isinstance(n, (ast.Try, ast.For)) and any(isinstance(x, ast.Return) for x in ast.walk(n)):
+            return False
     return True
 
 
+def _always_leaves(stmts):
+    if not stmts:
+        return False
+    last = stmts[-1]
+    if isinstance(last, (ast.Return, ast.Raise)):
+        return True
+    if isinstance(last, ast.If):
+        return _always_leaves(last.body) and _always_leaves(last.orelse)
+    return False
+
+
+def _thread_returns(stmts, emit):
+    """rewrite a loop-free statement list so that `return e` becomes emit(e) and nothing after it runs:
+    the statements following an `if` are moved into the branches that fall through."""
+    out = []
+    for i, st in enumerate(stmts):
+        if isinstance(st, ast.Return):
+            out += emit(st.value)
+            return out
+        if isinstance(st, ast.If) and any(isinstance(x, ast.Return) for x in ast.walk(st)):
+            rest = stmts[i + 1:]
+            body = _thread_returns(st.body + ([] if _always_leaves(st.body) else [copy.deepcopy(r) for r in rest]), emit)
+            orelse = _thread_returns(st.orelse + ([] if _always_leaves(st.orelse) else [copy.deepcopy(r) for r in rest]), emit)
+            new = ast.If(test=st.test, body=body or [ast.Pass()], orelse=orelse)
+            out.append(ast.copy_location(new, st))
+            return out
+        out.append(st)
+    return out
+
+
 def _arg_ok(a):
-    return isinstance(a, (ast.Name, ast.Constant)) or (isinstance(a, ast.Attribute) and _chain(a) is not None)
+    if isinstance(a, (ast.Name, ast.Constant)) or (isinstance(a, ast.Attribute) and _chain(a) is not None):
+        return True
+    if isinstance(a, ast.Call) and isinstance(a.func, ast.Name) and a.func.id in PURE_CALLS and not a.keywords:
+        return all(_arg_ok(x) for x in a.args)
+    if isinstance(a, ast.Subscript):
+        return _arg_ok(a.value)
+    return False
+
+
+_INLINE_SEQ = [0]
 
 
 def inline_new_helpers(tree, module_name, functions_of_class):
     """functions_of_class(class name or None) -> {name: FunctionDef}.  Rewrites call statements
-    `self.h(args)`, `Cls.h(args)`, `h(args)` and `x = <such a call>` whose target is a new helper."""
+    `self.h(args)`, `Cls.h(args)`, `h(args)`, `x = <such a call>`, `return <such a call>` and the
+    forwarding loop `for r in self.h(args): yield r` whose target is a new helper."""
     base = _baseline()
     if base is None:
         return 0
@@ -212,14 +267,16 @@ def inline_new_helpers(tree, module_name, functions_of_class):
     def target(call, cls_name):
         f = call.func
         if isinstance(f, ast.Attribute) and isinstance(f.value, ast.Name):
-            if f.value.id == "self" and cls_name:
+            if f.value.id in ("self", "cls") and cls_name:
                 d = functions_of_class(cls_name).get(f.attr)
-                return (d, 1, cls_name) if d is not None else None
+                if d is None:
+                    return None
+                static = any(isinstance(x, ast.Name) and x.id == "staticmethod" for x in d.decorator_list)
+                return (d, 0 if static else 1, cls_name)
             d = functions_of_class(f.value.id).get(f.attr) if functions_of_class(f.value.id) else None
             if d is not None:
-                static = any(isinstance(x, ast.Name) and x.id in ("staticmethod", "classmethod") for x in d.decorator_list)
-                return (d, 1 if (not static or any(isinstance(x, ast.Name) and x.id == "classmethod"
-                                                   for x in d.decorator_list)) else 0, f.value.id)
+                static = any(isinstance(x, ast.Name) and x.id == "staticmethod" for x in d.decorator_list)
+                return (d, 0 if static else 1, f.value.id)
             return None
         if isinstance(f, ast.Name):
             d = functions_of_class(None).get(f.id)
@@ -228,6 +285,17 @@ def inline_new_helpers(tree, module_name, functions_of_class):
 
     def qname(cls_name, name):
         return "%s:%s.%s" % (module_name, cls_name, name) if cls_name else "%s:%s" % (module_name, name)
+
+    def forwarding(st):
+        """`for r in <call>: yield r` (optionally through the 0/1 filter idiom that yields everything)"""
+        if not (isinstance(st, ast.For) and isinstance(st.iter, ast.Call) and isinstance(st.target, ast.Name)
+                and not st.orelse and len(st.body) == 1):
+            return None
+        b = st.body[0]
+        if isinstance(b, ast.Expr) and isinstance(b.value, ast.Yield) and isinstance(b.value.value, ast.Name) \
+                and b.value.value.id == st.target.id:
+            return st.iter
+        return None
 
     def rewrite_block(block, cls_name, depth=0):
         nonlocal count
@@ -241,48 +309,64 @@ def inline_new_helpers(tree, module_name, functions_of_class):
                 call, tgt = st.value, st.targets[0]
             elif isinstance(st, ast.Return) and isinstance(st.value, ast.Call):
                 call, tgt = st.value, "return"
+            elif forwarding(st) is not None:
+                call, tgt = forwarding(st), "forward"
             done = False
             if call is not None and not call.keywords and all(_arg_ok(a) for a in call.args):
                 t = target(call, cls_name)
                 if t is not None:
                     d, skip, owner = t
-                    static = any(isinstance(x, ast.Name) and x.id == "staticmethod" for x in d.decorator_list)
-                    if static:
-                        skip = 0
                     names = [a.arg for a in d.args.args][skip:]
+                    gen = _is_gen(d)
                     if d.name.startswith("_") and not d.name.startswith("__") and qname(owner, d.name) not in base \
-                            and _inlinable(d) and len(names) == len(call.args) and depth < 3:
+                            and _inlinable(d) and len(names) == len(call.args) and depth < 3 \
+                            and gen == (tgt == "forward"):
                         body = [copy.deepcopy(s) for s in d.body
                                 if not (isinstance(s, ast.Expr) and isinstance(s.value, ast.Constant))]
                         mapping = dict(zip(names, call.args))
-                        # the helper's own locals get a prefix
+                        _INLINE_SEQ[0] += 1
+                        pre = "_%s%d_" % (d.name.strip("_"), _INLINE_SEQ[0])
                         loc = {n.id for s in body for n in ast.walk(s) if isinstance(n, ast.Name)
                                and isinstance(n.ctx, ast.Store)} - set(names)
+                        if any(isinstance(n, ast.Name) and isinstance(n.ctx, ast.Store) and n.id in mapping
+                               for s in body for n in ast.walk(s)):
+                            i += 1
+                            continue        # the helper re-binds a parameter: leave the call alone
 
                         class R(ast.NodeTransformer):
                             def visit_Name(self, node):
                                 if node.id in mapping and isinstance(node.ctx, ast.Load):
                                     return copy.deepcopy(mapping[node.id])
                                 if node.id in loc:
-                                    node.id = "_%s_%s" % (d.name.strip("_"), node.id)
+                                    node.id = pre + node.id
                                 return node
                         body = [R().visit(s) for s in body]
-                        new = []
-                        for s in body:
-                            if isinstance(s, ast.Return):
-                                if tgt == "return":
-                                    new.append(s)
-                                elif tgt is not None and s.value is not None:
-                                    new.append(ast.Assign(targets=[tgt], value=s.value))
-                                elif s.value is not None:
-                                    new.append(ast.Expr(value=s.value))
-                            else:
-                                new.append(s)
-                        if tgt not in (None, "return") and not any(isinstance(s, ast.Return) for s in body):
-                            new.append(ast.Assign(targets=[tgt], value=ast.Constant(value=None)))
-                        for s in new:
-                            for n in ast.walk(s):
-                                ast.copy_location(n, st)
+
+                        def emit(value):
+                            if tgt == "return":
+                                return [ast.Return(value=value)]
+                            if tgt == "forward" or tgt is None:
+                                return [ast.Expr(value=value)] if value is not None and not isinstance(value, ast.Constant) else []
+                            if isinstance(tgt, ast.Tuple) and isinstance(value, ast.Tuple) \
+                                    and len(tgt.elts) == len(value.elts) \
+                                    and all(isinstance(x, ast.Name) for x in tgt.elts) \
+                                    and not ({x.id for x in tgt.elts} &
+                                             {n.id for v_ in value.elts for n in ast.walk(v_) if isinstance(n, ast.Name)}):
+                                # a, b = (x, y) with independent sides: one assignment per element
+                                return [ast.Assign(targets=[copy.deepcopy(t_)], value=v_)
+                                        for t_, v_ in zip(tgt.elts, value.elts)]
+                            return [ast.Assign(targets=[copy.deepcopy(tgt)],
+                                               value=value if value is not None else ast.Constant(value=None))]
+                        new = _thread_returns(body, emit)
+                        if tgt not in (None, "return", "forward") and not _always_leaves(body):
+                            # falling off the end returns None
+                            if not any(isinstance(s, ast.Return) for s in body):
+                                new.append(ast.Assign(targets=[copy.deepcopy(tgt)], value=ast.Constant(value=None)))
+                        new = new or [ast.Pass()]
+                        for s_ in new:
+                            for n in ast.walk(s_):
+                                if not hasattr(n, "lineno") or True:
+                                    ast.copy_location(n, st)
                         block[i:i + 1] = new
                         count += 1
                         inlined.add((owner, d.name))
@@ -314,8 +398,6 @@ def inline_new_helpers(tree, module_name, functions_of_class):
         fdefs = [f for f in holder if isinstance(f, ast.FunctionDef) and f.name == name]
         refs = 0
         for n in ast.walk(tree):
-            if any(n is f for f in fdefs):
-                continue
             if (isinstance(n, ast.Attribute) and n.attr == name) or (isinstance(n, ast.Name) and n.id == name):
                 refs += 1
         inner = sum(1 for f in fdefs for n in ast.walk(f)
